@@ -626,6 +626,12 @@ Proof.
   destruct (is_liquid x) eqn:E; destruct t; simpl; rewrite ?E; try discriminate. contradiction.
 Qed.
 
+Lemma run_exn_all_fast_eq c : run_exn_all_fast c = run_exn_all c.
+Proof.
+  unfold run_exn_all_fast, run_exn_all, render_site. destruct c as [s t a p v args]. cbn [c_site c_prims c_v c_args].
+  destruct s; reflexivity.
+Qed.
+
 (* ------------------------------------------------------------------ refutations *)
 Definition p_plain : prims := {| p_b64 := B64Ok; p_b64url := B64Ok; p_enc_ok := true; p_mod_impossible := false |}.
 Definition p_badtext : prims := {| p_b64 := B64NonUtf8; p_b64url := B64NonAscii; p_enc_ok := false; p_mod_impossible := false |}.
